@@ -72,9 +72,14 @@ class EventHandler(abc.ABC):
     )
 
     def __init__(self, config: SerializerConfig, ns_map: dict):
-        """Initialize the event handler."""
+        """Initialize the event handler.
+
+        Raises:
+            XmlWriterError: If the user prefix-URI map can't be declared.
+        """
         self.config = config
         self.ns_map = ns_map
+        self.validate_prefixes(ns_map)
 
         self.in_tail = False
         self.tail: str | None = None
@@ -82,6 +87,29 @@ class EventHandler(abc.ABC):
         self.ns_context: list[dict] = []
         self.pending_tag: tuple | None = None
         self.pending_prefixes: list[list] = []
+
+    @classmethod
+    def validate_prefixes(cls, ns_map: dict) -> None:
+        """Reject prefix-URI entries that no xml document can declare.
+
+        A prefix must be a ncname other than xmlns, the xml prefix
+        and the xml namespace belong together and nothing can be
+        bound to the xmlns namespace.
+
+        Args:
+            ns_map: A user defined namespace prefix-URI map
+
+        Raises:
+            XmlWriterError: On the first entry that can't be declared.
+        """
+        for prefix, uri in ns_map.items():
+            if (
+                (prefix and not namespaces.is_ncname(prefix))
+                or prefix == "xmlns"
+                or (prefix == Namespace.XML.prefix) != (uri == Namespace.XML.uri)
+                or uri == "http://www.w3.org/2000/xmlns/"
+            ):
+                raise XmlWriterError(f"Invalid namespace prefix `{prefix}` for `{uri}`")
 
     def write(self, events: EventIterator) -> None:
         """Feed the sax content handler with events.
